@@ -174,6 +174,61 @@ def short_circuits(fn):
     return False
 
 
+NODE_VARIANTS = ("BDD", "ComplBDD", "Reg", "Compl")
+
+
+def sdd_clear_complete(prog, sdd_clear):
+    """Every SDD traversal marks the nodes it visits, whatever edge it came through; `clear_scratch` therefore has to reach
+    every node below the one it is called on.  Wherever one of the SDD clear functions looks at the variant of a child
+    pointer, each of the four node-carrying variants (regular and complemented, binary and general) must go on to a
+    clear of the node behind it or to the next round of a walk: an arm that returns for `ComplBDD` / `Compl` ("a literal
+    or a constant ends the chain") leaves the memo entries below a complemented edge in place for the next query."""
+    out = []
+    for f in sdd_clear:
+        te, cfg = f.terms, f.cfg
+        clear_bbs = {cs.bb for cs in te.calls if cs.callee.name == "clear_scratch"}
+        errs, n = [], 0
+        for bb, (c, vm) in sorted(te.switch_term.items()):
+            if not vm or not (set(vm.values()) & set(NODE_VARIANTS)):
+                continue
+            term = f.blocks[bb]["term"]
+            if term.get("k") != "switch":
+                continue
+            n += 1
+            tmap = {vm.get(v): t for v, t in term.get("targets", []) if v in vm}
+            loop_heads = set(cfg.loop_headers)
+            for vname in NODE_VARIANTS:
+                tgt = tmap.get(vname, term.get("otherwise"))
+                if tgt is None:
+                    continue
+                # is there a way from tgt to a return that passes no clear_scratch call and does not go round a loop again?
+                seen, work, leak = set(), [tgt], False
+                while work:
+                    b = work.pop()
+                    if b in seen or b in clear_bbs:
+                        continue
+                    seen.add(b)
+                    k = f.blocks[b]["term"].get("k")
+                    if k == "return":
+                        leak = True
+                        break
+                    if k == "unreachable":
+                        continue
+                    for s_ in cfg.succ[b]:
+                        if s_ in loop_heads and any(b in body for h, body in cfg.loop_headers.items() if h == s_):
+                            continue      # back edge: the walk goes on with this child
+                        work.append(s_)
+                if leak:
+                    errs.append("for a `%s` child (%s) the function returns without clearing the node behind it: the traversals "
+                                "mark nodes below complemented edges like any other, and what they wrote there is read by the "
+                                "next query" % (vname, show(c)[:40]))
+        key = "SP2:%s:every-node-variant" % f.npath
+        if n:
+            out.append(inst("SP", key, VIOLATION if errs else OK, f, None,
+                            "; ".join(dict.fromkeys(errs)) if errs else "every node-carrying variant of a child is cleared or walked on"))
+    return out
+
+
 def sp2(prog, fns, leaky):
     out = []
     n = 0
@@ -187,6 +242,7 @@ def sp2(prog, fns, leaky):
     out.append(inst("SP", "SP2:sdd-clear-scratch:mode", OK, sdd_clear[0], None,
                     ("short-circuiting (%s): SDD traversals are held to the marking discipline" % short) if sdd_short else
                     "SDD clear_scratch descends unconditionally: completeness does not depend on which nodes a traversal marks"))
+    out += sdd_clear_complete(prog, sdd_clear)
     for f in fns:
         if id(f) not in leaky or is_setter(f):
             continue
